@@ -6,6 +6,8 @@ FileWriteTransformation, build original and candidate with gfortran together wit
 import os
 import shutil
 
+os.environ.setdefault('LOKI_LOGGING', 'ERROR')      # before loki is imported: no per-transformation timing lines on stdout
+
 from . import gen_scc
 from .native import Native, FFLAGS, first_diff
 
@@ -68,6 +70,8 @@ def apply(case, files, make_steps):
     from loki.frontend import FP
     from loki.expression import symbols as sym
     from loki.transformations.build_system import FileWriteTransformation
+    from loki import logging as llog
+    llog.set_log_level(llog.ERROR)
     _counter[0] += 1
     root = os.path.join(os.environ.get('LOKIVERIF_SCRATCH') or '/tmp', f'sccproj{os.getpid()}_{_counter[0]}')
     src, out = os.path.join(root, 'src'), os.path.join(root, 'out')
@@ -162,3 +166,8 @@ def original(case):
             raise GeneratorBug('original program does not compile:\n' + res.err[-1500:] + '\n---\n' + '\n'.join(t for _, t in files))
         _orig_cache[key] = res
     return files, main, _orig_cache[key]
+
+
+def raised_inside_loki(exc):
+    import traceback
+    return any('/loki/' in fr.filename.replace('\\', '/') for fr in traceback.extract_tb(exc.__traceback__))
